@@ -571,3 +571,48 @@ def r03_18_float_views_divide_the_exact_total(ctx: Ctx) -> RuleResult:
             else:
                 rr.fail(f.qual, f"`{unparse(bad)[:110]}` adds a float quotient to the scaled day part: for a value just below zero the parts are -1 day and almost +1 day, and the sum keeps only the rounding error of the quotient (-1 ns gives -1.004e-09 s); divide the exact integer total once", ctx.loc(f, bad))
     return rr
+
+
+@rule("C03")
+def r03_19_total_unit_getter_of_the_duration_patterns(ctx: Ctx) -> RuleResult:
+    """The total-unit fields of the Duration patterns (`H` total hours, `M` total minutes, `S` total seconds, the round-trip
+    patterns) write |duration| in whole units, computed from the floor-day split.  For negative values the floor day overshoots
+    by one EXCEPT for whole days (nanosecond of day 0): the getter is evaluated by the abstract interpreter on exact durations of
+    both signs, whole days included, and must return |total nanoseconds| // unit."""
+    from ..absint import Iv, Obj
+    from ..oblig import interp
+
+    rr = RuleResult("R03.19", "the total-unit getter of the Duration patterns returns |total| // unit for durations of both signs, whole negative days included (evaluated)", min_instances=3)
+    M = ctx.M
+    c = M.cls("_DurationPatternParser", required=True)
+    g = next((x for x in c.all_defs if not isinstance(x.node, ast.Lambda) and x.name.endswith("get_positive_nanosecond_units")), None)
+    if g is None or len(g.value_params) != 3:
+        raise AnalysisError("_DurationPatternParser.__get_positive_nanosecond_units(duration, nanoseconds_per_unit, units_per_day) not found")
+    npd = M.fold_class_const("PyodaConstants", "NANOSECONDS_PER_DAY")
+    pd, pu, pn = (p.arg for p in g.value_params)
+    for unit_ns in (3_600_000_000_000, 60_000_000_000, 1_000_000_000):
+        rr.inst()
+        bad = None
+        und = None
+        for total in (0, 1, -1, unit_ns, -unit_ns, unit_ns + 1, -unit_ns - 1, npd, -npd, 2 * npd, -2 * npd, npd - 1, -npd + 1, -npd - 1, 3 * npd + 5 * unit_ns + 7, -3 * npd - 5 * unit_ns - 7, -(1 << 30) * npd):
+            d, n = divmod(total, npd)
+            I = interp(ctx)
+            I.max_depth = 5
+            dur = Obj("Duration", {mangle("Duration", "__days"): Iv(d, d), mangle("Duration", "__nano_of_day"): Iv(n, n)})
+            rets, _ = I.analyse(g, params={pd: dur, pu: Iv(unit_ns, unit_ns), pn: Iv(npd // unit_ns, npd // unit_ns)})
+            rr.states += 1
+            vals = [v for v, _s in rets]
+            if vals and all(isinstance(v, Iv) and v.const for v in vals) and len({int(v.lo) for v in vals}) == 1:
+                got = int(vals[0].lo)
+                if got != abs(total) // unit_ns:
+                    bad = bad or (total, got)
+            else:
+                und = und if und is not None else total
+        if bad is not None:
+            rr.fail(g.qual, f"a duration of {bad[0]} ns gives {bad[1]} units of {unit_ns} ns, not {abs(bad[0]) // unit_ns}: the text written for it (and the value parsed back) is another duration", ctx.loc(g))
+        elif und is not None:
+            rr.undecided.append(f"{g.qual}: not evaluated exactly for {und} ns")
+            rr.ok()
+        else:
+            rr.ok({"unit_ns": unit_ns, "durations evaluated": 17})
+    return rr
